@@ -575,6 +575,8 @@ def _ensemble(p):
                 passed = [v.copy() for v in vecs]
             elif kind == "pure-col":
                 passed = [v.reshape(-1, 1).copy() for v in vecs]
+            elif kind == "pure-row":  # (1, d) row vectors: accepted by to_density_matrix like columns
+                passed = [v.reshape(1, -1).copy() for v in vecs]
             else:
                 passed = [m.copy() for m in dms]
             if kind.startswith("mixed-dtype"):
@@ -1221,6 +1223,9 @@ def cases(tier, seed):
                     ens.append(dict(d=d, n=n, kind=kind, field=field, prior=prior, seed=seed + i))
     if thorough:
         ens = ens + [dict(e, seed=e["seed"] + 1000 * r, prior=priors[(j + r) % 4] if not ((e["kind"].startswith("pure") and e["n"] - 1 < e["d"]) or (e["kind"] == "mixed-rank2" and 2 * (e["n"] - 1) < e["d"])) else "random") for r in (1, 2) for j, e in enumerate(ens)]
+    for d_, n_ in ((2, 2), (2, 3), (3, 4)):
+        for fld in ("complex", "real"):
+            ens.append(dict(d=d_, n=n_, kind="pure-row", field=fld, prior="random", seed=seed + 78))
     for d_, n_ in ((2, 3), (3, 4), (3, 5)):
         for kd in ("mixed-dtype-1d", "mixed-dtype-col", "mixed-dtype-dm"):
             ens.append(dict(d=d_, n=n_, kind=kd, field="complex", prior="random", seed=seed + 77))
